@@ -9,6 +9,7 @@ RULE = ('single surfaces: planar convex 3..8-gons in random planes / windings wi
         'opposite sides, one point on the surface with the other in front / behind, both coplanar; scenes: 6 room walls (random '
         'rotation of the whole scene) plus 0-3 interior blocker quads, random centroid pairs; real _basic_visibility / scans / '
         '_rotation_matrix vs the Lean model (flags exact) and vs an independent segment/polygon test; non-trivial = every case')
+RULE = RULE + '; sight lines aimed at chosen points of the surface (Dirichlet weights reaching corners and rim) and just outside it'
 ASSUMPTIONS = ['PARTIAL: exactness of the winding-number membership test is proved for axis-parallel rectangles in coordinate planes (walls and patches of shoebox rooms: exact half-open box incl. tolerance; windingCount_rect_ccw/_cw, pointInPolygon_axis_rect_inside/_outside) but not for every convex polygon; there it is tied by correspondence and checked against the independent test on the sampled configurations',
                'general position: cases whose decisive quantities lie within 1e-4 of a tolerance are not generated (the property itself excludes segments closer than 1 mm to edges)']
 EXPLANATION = ('PROVED: case analysis of _basic_visibility over an abstract membership test (blocked / seen from behind / coplanar), symmetry in the two points, the scans are the conjunction over all surfaces, '
